@@ -13,7 +13,7 @@ func init() {
 		Decided: "in the chain freezer loop, key-value deletions of frozen blocks happen only after freezeRange succeeded and the freezer was synced (a sync failure is fatal), never touch block 0, all go through the stage's batch (none writes the database directly), and the canonical hashes deleted in the first stage are exactly elements of the slice freezeRange returned; each batch is written with its error fatal; freezeRange appends a block to the freezer only with a non-zero canonical hash and non-empty header, body and receipts, reads through the no-freeze view, and records a hash only for a block it appended; the freeze threshold is subtraction-safe.",
 		NotDec: "that every chain accessor returns the same result before and after freezing, and that side-chain cleanup removes exactly the non-canonical data (value-level, needs histories).",
 		Rules:  "ORDER/DOM must-pass-through per delete/write site in (*chainFreezer).freeze and freezeRange's closure; ATOMIC/SAMEVAL argument identity; GUARDSUB in freezeThreshold",
-		MinObs: 58,
+		MinObs: 64,
 		Run:    c25,
 	})
 }
@@ -115,4 +115,46 @@ func c25(c *Ctx) {
 		b := s.Instr.(*ssa.BinOp)
 		c.Dom("no-underflow", th, []Site{s}, "head-threshold", GCond("head>FullImmutabilityThreshold", th, Cmp(Is(b.X), token.GTR, Is(b.Y))))
 	}
+
+	// ---- freezer-then-key-value fallback is atomic with respect to freezing -----------------
+	c.Rule("WHO/C25.fallback")
+	nfb := 0
+	for _, fn := range c.FuncsInFiles(rdb, "accessors_chain.go") {
+		anc := c.Calls(fn, "(ethdb.AncientReaderOp).Ancient|(ethdb.AncientReaderOp).AncientRange|(ethdb.AncientReaderOp).AncientBytes")
+		kv := c.Calls(fn, "(ethdb.KeyValueReader).Get|(ethdb.KeyValueReader).Has")
+		if len(anc) == 0 || len(kv) == 0 {
+			continue
+		}
+		// only the order freezer-miss -> key-value fallback can lose an item
+		// (items move from the key-value store into the freezer, never back)
+		order := false
+		for _, a := range anc {
+			for _, k := range kv {
+				if instrReaches(a.Instr, k.Instr) {
+					order = true
+				}
+			}
+		}
+		if !order {
+			continue
+		}
+		nfb++
+		inRA := false
+		if fn.Parent() != nil {
+			eachInstr(fn.Parent(), func(in ssa.Instruction) {
+				call, ok := in.(*ssa.Call)
+				if !ok || !matchCallee(calleeName(&call.Call), "(ethdb.AncientReader).ReadAncients") {
+					return
+				}
+				for _, a := range call.Call.Args {
+					if mc, ok := a.(*ssa.MakeClosure); ok && mc.Fn == fn {
+						inRA = true
+					}
+				}
+			})
+		}
+		c.Check(inRA, "fallback/"+fnName(fn), fn.Pos(), "freezer lookup and key-value fallback run inside one db.ReadAncients callback (the freezer cannot advance in between)",
+			"reads the freezer and falls back to the key-value store outside db.ReadAncients: a concurrent freeze cycle can move the item between the two reads and both miss")
+	}
+	c.Expect(5, nfb, "accessors with freezer+kv fallback")
 }
